@@ -9,6 +9,11 @@ import time
 ROOT = os.path.dirname(os.path.dirname(os.path.abspath(__file__)))
 EVIDENCE_DIR = os.path.join(ROOT, "evidence")
 REPLAY_DIR = os.path.join(ROOT, "replays")
+if os.environ.get("VERIF_REPO", "/repo") != "/repo":
+    # development aid (selftest/eval_seeded.sh runs the checks against a scratch copy carrying a seeded change): such a
+    # run must not overwrite the evidence and replays of /repo itself
+    EVIDENCE_DIR = os.path.join(ROOT, ".work", "scratch-evidence")
+    REPLAY_DIR = os.path.join(ROOT, ".work", "scratch-replays")
 KNOWN = os.path.join(ROOT, "known_findings.json")
 REPO = os.environ.get("VERIF_REPO", "/repo")
 
